@@ -284,7 +284,7 @@ struct Execution {
     points: usize,
 }
 
-fn execute(threads: &[Vec<Call>], prefix: &[usize]) -> Execution {
+fn execute_here(threads: &[Vec<Call>], prefix: &[usize]) -> Execution {
     verif::reset_all();
     let n = threads.len();
     let sched = Arc::new(Sched::new(n, prefix.to_vec()));
@@ -351,6 +351,136 @@ fn execute(threads: &[Vec<Call>], prefix: &[usize]) -> Execution {
     verif::install(None);
     let g = sched.inner.lock().unwrap();
     Execution { trace: g.trace.clone(), results, inits: g.inits.clone(), initialisers: g.initialisers.clone(), blocked_seen: g.blocked_seen, derefs: g.derefs.clone(), abort: g.abort.clone(), points: g.points }
+}
+
+
+// ---------------------------------------------------------------------------
+// one execution = one forked child process
+// ---------------------------------------------------------------------------
+// Every execution must start from the state of a process that has never called the
+// library: the property is about the *first use* of lazily created state, and a seeded
+// defect may keep such state in any static (atomics, OnceLock, Mutex<Option<..>>), not
+// only in lazy_static cells that the shim could reset. So the (single-threaded) driver
+// forks; the child runs the schedule with real threads, writes what it observed to a
+// pipe and _exits. The parent never calls into the library itself.
+
+extern "C" {
+    fn fork() -> i32;
+    fn pipe(fds: *mut i32) -> i32;
+    fn close(fd: i32) -> i32;
+    fn waitpid(pid: i32, status: *mut i32, options: i32) -> i32;
+    fn _exit(code: i32) -> !;
+    fn write(fd: i32, buf: *const u8, n: usize) -> isize;
+    fn read(fd: i32, buf: *mut u8, n: usize) -> isize;
+}
+
+fn exec_to_json(x: &Execution) -> Value {
+    json!({
+        "trace": x.trace.iter().map(|c| json!([c.enabled, c.chosen_idx, c.running_enabled])).collect::<Vec<_>>(),
+        "results": x.results,
+        "inits": x.inits.iter().map(|(k, v)| json!([k, v])).collect::<Vec<_>>(),
+        "initialisers": x.initialisers.iter().map(|(k, v)| json!([k, v])).collect::<Vec<_>>(),
+        "derefs": x.derefs.iter().map(|(k, v)| json!([k, v])).collect::<Vec<_>>(),
+        "blocked_seen": x.blocked_seen,
+        "abort": x.abort,
+        "points": x.points,
+    })
+}
+
+fn exec_from_json(v: &Value) -> Option<Execution> {
+    let pairs = |k: &str| -> BTreeMap<usize, usize> {
+        v[k].as_array().map(|a| a.iter().filter_map(|p| Some((p[0].as_u64()? as usize, p[1].as_u64()? as usize))).collect()).unwrap_or_default()
+    };
+    Some(Execution {
+        trace: v["trace"]
+            .as_array()?
+            .iter()
+            .filter_map(|c| {
+                Some(ChoicePoint {
+                    enabled: c[0].as_array()?.iter().filter_map(|x| x.as_u64().map(|x| x as usize)).collect(),
+                    chosen_idx: c[1].as_u64()? as usize,
+                    running_enabled: c[2].as_bool()?,
+                })
+            })
+            .collect(),
+        results: v["results"].as_array()?.iter().map(|t| t.as_array().map(|a| a.iter().filter_map(|s| s.as_str().map(|s| s.to_string())).collect()).unwrap_or_default()).collect(),
+        inits: pairs("inits"),
+        initialisers: v["initialisers"]
+            .as_array()
+            .map(|a| a.iter().filter_map(|p| Some((p[0].as_u64()? as usize, p[1].as_array()?.iter().filter_map(|x| x.as_u64().map(|x| x as usize)).collect()))).collect())
+            .unwrap_or_default(),
+        blocked_seen: v["blocked_seen"].as_bool().unwrap_or(false),
+        derefs: pairs("derefs"),
+        abort: v["abort"].as_str().map(|s| s.to_string()),
+        points: v["points"].as_u64().unwrap_or(0) as usize,
+    })
+}
+
+/// run `f` in a forked child and return what it wrote (None if the child died)
+fn in_child<F: FnOnce() -> String>(f: F) -> Result<String, String> {
+    let mut fds = [0i32; 2];
+    unsafe {
+        if pipe(fds.as_mut_ptr()) != 0 {
+            return Err("pipe failed".into());
+        }
+        let pid = fork();
+        if pid < 0 {
+            return Err("fork failed".into());
+        }
+        if pid == 0 {
+            close(fds[0]);
+            let out = f();
+            let b = out.as_bytes();
+            let mut off = 0usize;
+            while off < b.len() {
+                let n = write(fds[1], b.as_ptr().add(off), b.len() - off);
+                if n <= 0 {
+                    break;
+                }
+                off += n as usize;
+            }
+            close(fds[1]);
+            _exit(0);
+        }
+        close(fds[1]);
+        let mut buf = Vec::new();
+        let mut chunk = [0u8; 65536];
+        loop {
+            let n = read(fds[0], chunk.as_mut_ptr(), chunk.len());
+            if n <= 0 {
+                break;
+            }
+            buf.extend_from_slice(&chunk[..n as usize]);
+        }
+        close(fds[0]);
+        let mut status = 0i32;
+        waitpid(pid, &mut status, 0);
+        if status != 0 {
+            return Err(format!("child process ended with wait status {:#x} (crash or abort under this schedule)", status));
+        }
+        Ok(String::from_utf8_lossy(&buf).to_string())
+    }
+}
+
+fn execute(threads: &[Vec<Call>], prefix: &[usize]) -> Execution {
+    let r = in_child(|| exec_to_json(&execute_here(threads, prefix)).to_string());
+    let died = |why: String| Execution { trace: vec![], results: vec![], inits: BTreeMap::new(), initialisers: BTreeMap::new(), blocked_seen: false, derefs: BTreeMap::new(), abort: Some(why), points: 0 };
+    match r {
+        Ok(text) => match serde_json::from_str::<Value>(&text).ok().and_then(|v| exec_from_json(&v)) {
+            Some(x) => x,
+            None => died("child produced no report".into()),
+        },
+        Err(e) => died(e),
+    }
+}
+
+/// single-threaded reference results, computed in a fresh process as well
+fn expected_results(threads: &[Vec<Call>]) -> Vec<Vec<String>> {
+    let r = in_child(|| json!(threads.iter().map(|t| t.iter().map(|c| run_fresh(*c)).collect::<Vec<_>>()).collect::<Vec<_>>()).to_string());
+    match r.ok().and_then(|t| serde_json::from_str::<Value>(&t).ok()) {
+        Some(v) => v.as_array().map(|a| a.iter().map(|t| t.as_array().map(|x| x.iter().filter_map(|s| s.as_str().map(|s| s.to_string())).collect()).unwrap_or_default()).collect()).unwrap_or_default(),
+        None => vec![],
+    }
 }
 
 fn choices(x: &Execution) -> Vec<usize> {
@@ -509,7 +639,7 @@ fn main() {
         let out = match sc {
             None => json!({"error": "unknown scenario"}),
             Some((name, threads, bound)) => {
-                let expected: Vec<Vec<String>> = threads.iter().map(|t| t.iter().map(|c| run_fresh(*c)).collect()).collect();
+                let expected: Vec<Vec<String>> = expected_results(&threads);
                 let mut e = Explorer { threads: &threads, expected, bound, executions: 0, transitions: 0, max_points: 0, outcomes: BTreeMap::new(), violations: vec![], cap: 1, capped: false, name, pruned: false, last_round: 0, t0: Instant::now(), wall_cap: Duration::from_secs(60) };
                 let a = execute(&threads, &ch);
                 let b = execute(&threads, &ch);
@@ -528,7 +658,7 @@ fn main() {
     let mut errors: Vec<String> = Vec::new();
     let cap = if thorough { 2_000_000 } else { 60_000 };
     for (name, threads, bound) in scenarios(thorough) {
-        let expected: Vec<Vec<String>> = threads.iter().map(|t| t.iter().map(|c| run_fresh(*c)).collect()).collect();
+        let expected: Vec<Vec<String>> = expected_results(&threads);
         let t0 = Instant::now();
         let mut e = Explorer { threads: &threads, expected, bound, executions: 0, transitions: 0, max_points: 0, outcomes: BTreeMap::new(), violations: vec![], cap, capped: false, name: name.clone(), pruned: false, last_round: 0, t0: Instant::now(), wall_cap: Duration::from_secs(if thorough { 240 } else { 6 }) };
         let (bound_done, complete) = e.explore_iteratively(bound);
@@ -546,7 +676,7 @@ fn main() {
             "preemption_bound": if bound > 1000 { json!("unbounded") } else { json!(bound) },
             "schedules": e.executions,
             "schedules_in_last_round": e.last_round,
-            "preemption_bound_completed": bound_done,
+            "preemption_bound_completed": if bound_done > 1000 { json!("unbounded") } else { json!(bound_done) },
             "all_interleavings_covered": complete,
             "choice_points": e.transitions,
             "max_points_in_one_execution": e.max_points,
